@@ -4,9 +4,12 @@
    per case, the model's result as space-separated hex integers.
    This file is trusted glue: integer <-> extracted [Model.z] conversion and
    dispatch only; all decoding of cases is done inside the Coq model. *)
+(* [ostring]: OCaml's own string type; [open Model] may shadow [string] with the
+   extracted Coq string type *)
+type ostring = string
 open Model
 
-let rec pos_of_bits (s : string) (i : int) (acc : positive option) : positive option =
+let rec pos_of_bits (s : ostring) (i : int) (acc : positive option) : positive option =
   (* s is a string of '0'/'1', most significant first *)
   if i >= String.length s then acc
   else
@@ -24,7 +27,7 @@ let bits_of_hexdigit c =
   | 'c' | 'C' -> "1100" | 'd' | 'D' -> "1101" | 'e' | 'E' -> "1110" | 'f' | 'F' -> "1111"
   | _ -> failwith ("bad hex digit " ^ String.make 1 c)
 
-let z_of_hex (tok : string) : z =
+let z_of_hex (tok : ostring) : z =
   let neg = String.length tok > 0 && tok.[0] = '-' in
   let body = if neg then String.sub tok 1 (String.length tok - 1) else tok in
   let buf = Buffer.create (4 * String.length body) in
@@ -33,7 +36,7 @@ let z_of_hex (tok : string) : z =
   | None -> Z0
   | Some p -> if neg then Zneg p else Zpos p
 
-let hex_of_pos (p : positive) : string =
+let hex_of_pos (p : positive) : ostring =
   (* collect bits least significant first *)
   let rec bits p acc = match p with
     | XH -> 1 :: acc
@@ -59,13 +62,13 @@ let hex_of_pos (p : positive) : string =
   done;
   Bytes.to_string b
 
-let hex_of_z (x : z) : string =
+let hex_of_z (x : z) : ostring =
   match x with
   | Z0 -> "0"
   | Zpos p -> hex_of_pos p
   | Zneg p -> "-" ^ hex_of_pos p
 
-let entries : (string * (z list -> z list)) list = Entries.table
+let entries : (ostring * (z list -> z list)) list = Entries.table
 
 let () =
   let tbl = Hashtbl.create 64 in
